@@ -271,7 +271,10 @@ def check(case, res):
   if info["r2_sites"]:
     res.label("known:r2-site")
   if info["ambiguous"]:
-    res.label("skipped:ambiguous-inverted-interval")   # only reachable through shrinking: the generator repairs these
+    # end < begin on an element whose end a seq sibling or an implicit duration depends on: SMIL does not make such an interval
+    # valid and the property does not say what its end contributes, so the document is not judged (the generator repairs these
+    # shapes in the main parts; they remain reachable through shrinking and in the small trigger parts)
+    res.label("skipped:ambiguous-inverted-interval")
     return
   try:
     doc, _ = read(xml_text)
@@ -298,9 +301,11 @@ def check(case, res):
   res.evals += n
   if collapse:
     res.labels.update(sub.labels)
-    if sub.fails:
-      res.fail(collapse, "%s%s %s" % ("offset par containers %r without dur/end: " % info["r1_sites"] if info["r1_sites"] else "",
-                                      sub.fails[0][0], sub.fails[0][1]))
+    for b, d in sub.fails:
+      if collapse == R1_BUCKET and not b.startswith(("presence:", "structure:")):
+        res.fail(b, d)         # styles, inheritance, parameters do not depend on the implicit end
+      else:
+        res.fail(collapse, "%s%s %s" % ("offset par containers %r without dur/end: " % info["r1_sites"] if info["r1_sites"] else "", b, d))
   if shown:
     res.label("presents-content")
   if rich and shown:
